@@ -517,6 +517,21 @@ def gen_reuse(r, n):
             yield f"P in {k}"
             yield f"P getitem {k}"
         yield f"P keys {base[0][0]} {base[-1][0] + 1}" if base else "P keys _ _"
+    if r.chance(40):
+        # (C) clear(), then a refill far beyond any node size a constructor default could give (128), a drain of
+        # the small keys and popitem(): whatever clear() rebuilt must behave like a fresh tree of THIS capacity
+        yield "P clear"
+        yield "P dump"
+        big = 131 + r.below(150)
+        for i in range(big): yield f"P set {top + 2 * i} {i % 6 + 1}"
+        yield "P dump"
+        yield "P len"
+        drain = big // 2 + 2 + r.below(8)
+        for i in range(drain): yield f"P del {top + 2 * i}"
+        for _ in range(3): yield "P popitem"
+        yield "P dump"
+        yield "P len"
+        yield "P items _ _"
 
 def gen_local(r, n):
     """sparse ascending fill (every leaf at its post-split size), then episodes that fill the gap below a
